@@ -50,6 +50,24 @@ pub fn run_target(target: &str, data: &[u8]) -> Option<(Failure, Value)> {
             None
         }
         "edge_select" => go!(super::c06::gen_case, super::c06::check),
+        "sampling" => {
+            // one generated sampling case, every deterministic sampling oracle (C09 with its two routings, then
+            // C07, C08, C10, C11, C02 on the first routing)
+            let c = super::c09::gen_case(&mut t, Tier::Thorough)?;
+            let cj = serde_json::to_value(&c).unwrap_or(Value::Null);
+            if let Err(f) = super::c09::check(&c, &mut ctx) {
+                return Some((f, cj));
+            }
+            let pj = serde_json::to_value(&c.a).unwrap_or(Value::Null);
+            type Chk = fn(&crate::gen::Phys, &mut Ctx) -> Result<(), Failure>;
+            let others: [(&str, Chk); 5] = [("C07", super::c07::check), ("C08", super::c08::check), ("C10", super::c10::check), ("C11", super::c11::check), ("C02", super::c02::check)];
+            for (id, chk) in others {
+                if let Err(f) = chk(&c.a, &mut ctx) {
+                    return Some((Failure::new(format!("{id}:{}", f.signature), f.message), pj));
+                }
+            }
+            None
+        }
         "matrix_decomp" => {
             let c = super::c15::gen_case(&mut t, Tier::Thorough)?;
             if let Err(f) = super::c15::check(&c, &mut ctx) {
@@ -88,6 +106,12 @@ fn target_property(target: &str, f: &Failure) -> &'static str {
         (_, "C05") => "C05",
         (_, "C04") => "C04",
         (_, "C16") => "C16",
+        (_, "C07") => "C07",
+        (_, "C08") => "C08",
+        (_, "C10") => "C10",
+        (_, "C11") => "C11",
+        (_, "C02") => "C02",
+        ("sampling", _) => "C09",
         ("gamma_quantile", _) => "C12",
         ("graph_table", _) => "C03",
         ("edge_select", _) => "C06",
@@ -131,6 +155,7 @@ pub fn maybe_fuzz(id: &str, target: &str, tier: Tier, seed: u64, stats: &mut Sta
     let runs: u64 = match target {
         "gamma_quantile" => 3_000_000,
         "graph_table" => 300_000,
+        "sampling" => 400_000,
         _ => 600_000,
     };
     let bin = tdir.join("x86_64-unknown-linux-gnu").join("release").join(target);
